@@ -1082,6 +1082,88 @@ theorem default_alignment (a : Args) (hwf : a.WF = true) (i : Nat)
         omega
       exact ⟨hlt, by rw [hsp]; simp [alignAt, hge, hlt]⟩
 
+/-! ## names, kinds and defaults do not depend on the names being distinct -/
+
+/-- a parameter without its annotation -/
+def Param.shape (p : Param) : Nat × Kind × Option Nat := (p.name, p.kind, p.default)
+
+theorem addPositional_shape (d : List (Key × Option AnnE)) (numPos : Nat) (defaults : List Nat)
+    (hd : defaults.length ≤ numPos) (kind : Kind) :
+    ∀ (xs : List Arg) (i0 : Nat) (acc : List Param), i0 + xs.length ≤ numPos →
+      ∃ ps, addPositional d numPos defaults kind xs i0 acc = .ok ps ∧
+        ps.map Param.shape = acc.map Param.shape ++
+          ((xs.zip ((List.range' i0 xs.length).map (alignAt numPos defaults))).map (pparam kind)).map Param.shape := by
+  intro xs
+  induction xs with
+  | nil => intro i0 acc _; exact ⟨acc, by simp [addPositional]⟩
+  | cons x xs ih =>
+    intro i0 acc hlen
+    simp only [List.length_cons] at hlen
+    simp only [addPositional, getDefault_eq numPos defaults i0 (by omega) hd]
+    obtain ⟨ps, h1, h2⟩ := ih (i0 + 1) (acc ++ [mkParam d x.name kind (alignAt numPos defaults i0)]) (by omega)
+    refine ⟨ps, h1, ?_⟩
+    rw [h2]
+    simp [List.range'_succ, mkParam, pparam, Param.shape]
+
+theorem addKwonly_shape (d : List (Key × Option AnnE)) :
+    ∀ (xs : List Arg) (ds : List (Option Nat)) (acc : List Param),
+      (addKwonly d xs ds acc).map Param.shape =
+        acc.map Param.shape ++ ((xs.zip ds).map (pparam .kwOnly)).map Param.shape := by
+  intro xs
+  induction xs with
+  | nil => intro ds acc; simp [addKwonly]
+  | cons x xs ih =>
+    intro ds acc
+    cases ds with
+    | nil => simp [addKwonly]
+    | cons dv ds =>
+      simp only [addKwonly]
+      rw [ih]
+      simp [mkParam, pparam, Param.shape]
+
+/-- **`Signature.build_shape`**: on anything the parser produces — duplicate names included — the
+names, kinds and defaults of the list handed to `inspect.Signature` are Python's reading of the
+arguments (only the annotation lookup goes through the name-keyed dict). -/
+theorem build_shape (a : Args) (hp : a.parserWF = true) :
+    ∃ ps, buildParams a = .ok ps ∧ ps.map Param.shape = (specParams a).map Param.shape := by
+  simp only [Args.parserWF, decide_eq_true_eq] at hp
+  obtain ⟨hd, hk⟩ := hp
+  rw [specParams_layout]
+  unfold buildParams
+  simp only
+  obtain ⟨p1, h1, s1⟩ := addPositional_shape (annotationsFromFunction a) _ _ hd .posOnly a.posonly 0 [] (by omega)
+  rw [h1]
+  simp only
+  obtain ⟨p2, h2, s2⟩ := addPositional_shape (annotationsFromFunction a) _ _ hd .posOrKw a.args a.posonly.length p1 (by omega)
+  rw [h2]
+  simp only [hk, if_true]
+  refine ⟨_, rfl, ?_⟩
+  unfold Layout.params layoutOf
+  cases a.vararg <;> cases a.kwarg <;>
+    simp [addKwonly_shape, s1, s2, mkParam, vparam, Param.shape]
+
+/-- **`Signature.default_alignment_parser`**: Python's default rule, without the distinct-names
+hypothesis: for parser-shaped arguments the `i`-th positional parameter of the built list has the
+default `alignAt npos defaults i`. -/
+theorem default_alignment_parser (a : Args) (hp : a.parserWF = true) (i : Nat)
+    (hi : i < a.posonly.length + a.args.length) :
+    ∃ ps p, buildParams a = .ok ps ∧ ps[i]? = some p ∧
+      p.default = alignAt (a.posonly.length + a.args.length) a.defaults i := by
+  obtain ⟨ps, hb, hs⟩ := build_shape a hp
+  have hsp := specParams_positional a i hi
+  have hi' : ((specParams a).map Param.shape)[i]? = (ps.map Param.shape)[i]? := by rw [hs]
+  simp only [List.getElem?_map] at hi'
+  cases hq : (specParams a)[i]? with
+  | none => simp [hq] at hsp
+  | some q =>
+    simp only [hq, Option.map_some, Option.some.injEq] at hsp
+    cases hpi : ps[i]? with
+    | none => simp [hq, hpi] at hi'
+    | some p =>
+      simp only [hq, hpi, Option.map_some, Option.some.injEq, Param.shape, Prod.mk.injEq] at hi'
+      exact ⟨ps, p, hb, hpi, by rw [← hi'.2.2, hsp]⟩
+
+
 /-! ### the ValueError branch: exactly the duplicate names -/
 
 theorem addPositional_names (d : List (Key × Option AnnE)) (numPos : Nat) (defaults : List Nat) (kind : Kind) :
